@@ -65,8 +65,8 @@ TEXT = {
     "design_ref": 'DESIGN.md 6 C01',
     "note": NOTE + ('Parts of the code answered `unmodelled` (counted in evidence) are covered by the oracle on the real code only: '
               'date on a string receiver that is not one of the five all-digit layouts (nor rejected by every layout at its first field), '
-              'strftime widths above 1024, instants beyond +-2^62 s, fmt of a time below an unexported struct field; a loop over a range of more than 100000 '
-              'items and the array conversion of a range of more than 10^6 items; sort of more than 12 elements when the order '
+              'strftime widths above 1024, instants beyond +-2^62 s, fmt of a time below an unexported struct field; in the model binary (not in the model\'s semantics) a loop over a range of more than 100000 '
+              'items and the array conversion of a range of more than 10^6 items: the two numbers are the defaults of the budget parameters of the executable model (Cfg.budget, `convert`), which have no counterpart in the code, and every theorem holds for every value of them - a render that gives an answer under some budgets gives the same answer under all larger ones (budget_monotone, budget_monotone_std in Proofs.C11, proved through every node and included file in Proofs.Budget), so no_panic and the other theorems about `run` are not limited by them; only the driver, which runs with the defaults, answers `unmodelled` there; sort of more than 12 elements when the order '
               'is not a strict weak order or when tied elements are distinguishable (unstable sort); a custom block; pointer '
               'identity (== of two non-nil pointers, uniq over pointers); == on struct and array values; conversion of an index '
               'to a map\'s key type outside the modelled cases; fmt of a pointer (an address), of a pointer to a pointer and of '
